@@ -268,6 +268,11 @@ Fixpoint run_obs (c : committee) (ops : list op) (p : pool) : list obs * pool :=
       ((outcome_code o, chosen o, hr p1, disc p1) :: l, pf)
   end.
 
+(* typed [None]s for the case files written by the harness *)
+Definition noN : option N := None.
+Definition noCh : option (option (N * N)) := None.
+Definition noPair : option (N * N) := None.
+
 (* canonical snapshot: entries sorted by rank, votes sorted by node *)
 Section KSort.
   Context {V : Type}.
